@@ -22,9 +22,9 @@ import (
 
 func TestMain(m *testing.M) {
 	kit.Main(m, "C06", "exploration",
-		"rapid-drawn (service, product, region suffix) and PAIRS of distinct partition ids constructed adversarially rather than filtered: Q = P + '_' + service + '_' + product (+ anything), Q = P + '_' + anything, prefixes/suffixes of each other, ids embedding _IK_ / _SK_ / the region / underscores at every boundary, non-ASCII, plus uniform pairs; "+
+		"rapid-drawn (service, product, region suffix) and PAIRS of distinct partition ids constructed adversarially rather than filtered: Q = P + '_' + service + '_' + product (+ anything), Q = P + '_' + anything, prefixes/suffixes of each other, ids equal up to letter case / surrounding blanks / Unicode composition, ids embedding _IK_ / _SK_ / the region / underscores at every boundary, non-ASCII, plus uniform pairs; "+
 			"with a plain store, a region-suffixing harness store, and both DynamoDB metastores over the semantic fake with region suffix on; cache states: P cold / warm, Q's key already in a shared IK cache, session cache, no cache. "+
-			"Oracle: a session for P given a record produced for Q must return an error (any non-error result is a violation, reported with whether the bytes equal Q's payload); both directions are tried; GetSession(\"\") is refused; a record of P itself still decrypts (no vacuous rejection). "+
+			"Oracle: a session for P given a record produced for Q must return an error (any non-error result is a violation, reported with whether the bytes equal Q's payload); both directions are tried, with one session open at a time and with both partitions' sessions open together, sessions closed once or twice (explicit + deferred Close); GetSession(\"\") is refused; a record of P itself still decrypts (no vacuous rejection). "+
 			"One evaluation = one pair. Non-trivial = the key id of Q's record and P's own key id share a prefix of at least len(\"_IK_\"+P) bytes, or suffixing is on; distinct = (store kind, construction class, cache state, ids)",
 		"region suffixes are AWS region names (no underscore)", "that P can read its own records written under another region's suffix is not asserted")
 }
@@ -86,7 +86,7 @@ func drawWord(t *rapid.T, label string, extra ...string) string {
 func drawPair(t *rapid.T, service, product, region string) (p, q, class string) {
 	p = drawWord(t, "p", service, product)
 	sp := "_" + service + "_" + product
-	switch rapid.IntRange(0, 9).Draw(t, "class") {
+	switch rapid.IntRange(0, 11).Draw(t, "class") {
 	case 0:
 		q, class = p+sp, "P+_service_product"
 	case 1:
@@ -103,6 +103,34 @@ func drawPair(t *rapid.T, service, product, region string) (p, q, class string) 
 		q, class = p+"_"+region, "P+_region"
 	case 7:
 		q, class = strings.TrimSuffix(p, sp), "P-without-suffix"
+	case 10, 11:
+		// ids that a careless normalisation (case folding, trimming, Unicode composition) would identify
+		if !strings.ContainsAny(p, "abLIKSAé") {
+			p += "aB"
+		}
+		switch rapid.IntRange(0, 5).Draw(t, "norm") {
+		case 0:
+			q = strings.ToLower(p)
+		case 1:
+			q = strings.ToUpper(p)
+		case 2:
+			q = p + " "
+		case 3:
+			q = " " + p
+		case 4:
+			q = strings.ReplaceAll(p, "é", "e\u0301")
+		default:
+			q = strings.Map(func(r rune) rune {
+				if r >= 'a' && r <= 'z' {
+					return r - 32
+				}
+				if r >= 'A' && r <= 'Z' {
+					return r + 32
+				}
+				return r
+			}, p)
+		}
+		class = "normalisation-variant"
 	default:
 		q, class = drawWord(t, "q", service, product), "uniform"
 	}
@@ -151,12 +179,17 @@ func TestPairs(t *testing.T) {
 			s.Close()
 			bad("GetSession(\"\") was not refused")
 		}
+		// callers commonly close a session both explicitly and through a defer: harmless, and it must stay so
+		doubleClose := rapid.IntRange(0, 3).Draw(t, "doubleClose") == 0
 		enc := func(part string, payload []byte) *appencryption.DataRowRecord {
 			s, err := f.GetSession(part)
 			if err != nil {
 				t.Fatalf("GetSession(%q): %v", part, err)
 			}
 			defer s.Close()
+			if doubleClose {
+				defer s.Close()
+			}
 			r, err := s.Encrypt(ctx, payload)
 			if err != nil {
 				t.Fatalf("encrypt for %q: %v", part, err)
@@ -186,6 +219,29 @@ func TestPairs(t *testing.T) {
 			recP = enc(p, payP)
 		}
 		cross(q, recP, p, payP)
+		// both partitions' sessions open at the same time (two requests in flight): each still is its own partition's session
+		{
+			sP, errP := f.GetSession(p)
+			sQ, errQ := f.GetSession(q)
+			if errP != nil || errQ != nil {
+				t.Fatalf("GetSession: %v %v", errP, errQ)
+			}
+			recQ2, err := sQ.Encrypt(ctx, payQ)
+			if err != nil {
+				bad("encrypt for %q while a session for %q is open failed: %v", q, p, err)
+			}
+			if out, err := sP.Decrypt(ctx, *recQ2); err == nil {
+				bad("with both sessions open, the session for %q decrypted a record just produced for %q (key id %q); bytes equal its payload: %v", p, q, recQ2.Key.ParentKeyMeta.ID, bytes.Equal(out, payQ))
+			}
+			if out, err := sQ.Decrypt(ctx, *recP); err == nil {
+				bad("with both sessions open, the session for %q decrypted a record produced for %q (key id %q); bytes equal its payload: %v", q, p, recP.Key.ParentKeyMeta.ID, bytes.Equal(out, payP))
+			}
+			if out, err := sP.Decrypt(ctx, *recP); err != nil || !bytes.Equal(out, payP) {
+				bad("with both sessions open, partition %q cannot decrypt its own record: %v", p, err)
+			}
+			sP.Close()
+			sQ.Close()
+		}
 		// sanity: isolation is not vacuous - each partition still reads its own record
 		for _, c := range []struct {
 			part string
